@@ -1,277 +1,11 @@
 /-
   Bridges between the model's codecs (`Model/Base.lean`, `Model/Bitarray.lean`) and the
   independently written layout specification (`Spec/Layout.lean`).
+
+  The lemmas live in one module per data-structure family (plus a family-independent one); this
+  module only gathers them.
 -/
-import PyProb.Lemmas.Formats
-import PyProb.Lemmas.Bits
-import PyProb.Spec.Layout
-
-namespace PyProb
-
-/-! ### integers -/
-
-theorem leBytes4_eq (v : Nat) : leBytes 4 v = Spec.u32le v := by
-  simp only [leBytes, Spec.u32le]
-  congr 1 <;> (try congr 1) <;> (try congr 1) <;> (try congr 1) <;> omega
-
-theorem leBytes8_eq (v : Nat) : leBytes 8 v = Spec.u64le v := by
-  simp only [leBytes, Spec.u64le, Nat.div_div_eq_div_mul]
-
-theorem leBytesInt4_nat {v : Int} (h0 : 0 ≤ v) (h1 : v ≤ 4294967295) :
-    leBytesInt 4 v = Spec.u32le v.toNat := by
-  rw [leBytesInt_nonneg h0 (by simp; omega), leBytes4_eq]
-
-theorem leBytesInt8_nat {v : Int} (h0 : 0 ≤ v) (h1 : v ≤ 18446744073709551615) :
-    leBytesInt 8 v = Spec.u64le v.toNat := by
-  rw [leBytesInt_nonneg h0 (by simp; omega), leBytes8_eq]
-
-theorem leBytesInt4_int {v : Int} (h0 : -2147483648 ≤ v) (h1 : v ≤ 2147483647) :
-    leBytesInt 4 v = Spec.i32le v := by
-  unfold leBytesInt Spec.i32le
-  rw [leBytes4_eq]
-  congr 1
-  have : ((256 ^ 4 : Nat) : Int) = 4294967296 := by simp
-  rw [this]
-  split
-  · have : v % 4294967296 = v + 4294967296 := by omega
-    rw [this]
-  · have : v % 4294967296 = v := by omega
-    rw [this]
-
-theorem leBytesInt8_int {v : Int} (h0 : -9223372036854775808 ≤ v) (h1 : v ≤ 9223372036854775807) :
-    leBytesInt 8 v = Spec.i64le v := by
-  unfold leBytesInt Spec.i64le
-  rw [leBytes8_eq]
-  congr 1
-  have : ((256 ^ 8 : Nat) : Int) = 18446744073709551616 := by simp
-  rw [this]
-  split
-  · have : v % 18446744073709551616 = v + 18446744073709551616 := by omega
-    rw [this]
-  · have : v % 18446744073709551616 = v := by omega
-    rw [this]
-
-/-! ### bits -/
-
-theorem spec_orByteAt (bs : Bytes) (j t : Nat) :
-    Spec.orByteAt bs j t = bs.set j (bs.getD j 0 ||| 1 <<< t) := by
-  induction bs generalizing j with
-  | nil => simp [Spec.orByteAt]
-  | cons b bs ih =>
-      cases j with
-      | zero => simp [Spec.orByteAt, Nat.one_shiftLeft]
-      | succ j => simp [Spec.orByteAt, ih]
-
-theorem spec_setBit (bs : Bytes) (i : Nat) : Spec.setBit bs i = setBitB bs i := by
-  unfold Spec.setBit setBitB; exact spec_orByteAt _ _ _
-
-theorem byteOfBits_testBit (x : Nat) (h : x < 256) : Spec.byteOfBits (fun t => x.testBit t) = x := by
-  revert x
-  decide +kernel
-
-theorem byteOfBits_congr (f g : Nat → Bool) (h : ∀ t, t < 8 → f t = g t) :
-    Spec.byteOfBits f = Spec.byteOfBits g := by
-  simp only [Spec.byteOfBits, h 0 (by decide), h 1 (by decide), h 2 (by decide), h 3 (by decide),
-    h 4 (by decide), h 5 (by decide), h 6 (by decide), h 7 (by decide)]
-
-theorem bits_eq_byteOfBits (bits : Bytes) (h : ∀ x ∈ bits, x < 256) :
-    bits = (List.range bits.length).map fun j => Spec.byteOfBits fun t => testBitB bits (8 * j + t) := by
-  apply List.ext_getElem
-  · simp
-  · intro j h1 h2
-    simp only [List.getElem_map, List.getElem_range]
-    have hx := h bits[j] (List.getElem_mem h1)
-    rw [byteOfBits_congr _ (fun t => (bits[j]).testBit t), byteOfBits_testBit _ hx]
-    intro t ht
-    rw [testBitB_eq]
-    have e1 : (8 * j + t) / 8 = j := by omega
-    have e2 : (8 * j + t) % 8 = t := by omega
-    rw [e1, e2, List.getD_eq_getElem?_getD, List.getElem?_eq_getElem h1]
-    rfl
-
-theorem bloomFooter_spec (est fpr32 : Nat) (cnt : Int) :
-    Gen.bloomFooter.pack [(est : Int), cnt, (fpr32 : Int)] =
-      if est < 2 ^ 64 ∧ 0 ≤ cnt ∧ cnt < 2 ^ 64 ∧ fpr32 < 2 ^ 32
-      then .ok (Spec.bloomFooter est cnt.toNat fpr32) else .error .structError := by
-  rw [bloomFooter_pack]
-  by_cases h : est < 2 ^ 64 ∧ 0 ≤ cnt ∧ cnt < 2 ^ 64 ∧ fpr32 < 2 ^ 32
-  · obtain ⟨h1, h2, h3, h4⟩ := h
-    rw [if_neg (by omega), if_neg (by omega), if_neg (by omega), if_pos ⟨h1, h2, h3, h4⟩]
-    rw [leBytesInt8_nat (by omega) (by omega), leBytesInt8_nat h2 (by omega), leBytesInt4_nat (by omega) (by omega)]
-    simp [Spec.bloomFooter]
-  · rw [if_neg h]
-    repeat' split
-    all_goals first | rfl | (exfalso; apply h; omega)
-
-theorem bloomFooterHex_spec (est fpr32 : Nat) (cnt : Int) :
-    Gen.bloomFooterHex.pack [(est : Int), cnt, (fpr32 : Int)] =
-      if est < 2 ^ 64 ∧ 0 ≤ cnt ∧ cnt < 2 ^ 64 ∧ fpr32 < 2 ^ 32
-      then .ok ((Spec.u64le est).reverse ++ (Spec.u64le cnt.toNat).reverse ++ (Spec.u32le fpr32).reverse)
-      else .error .structError := by
-  rw [bloomFooterHex_pack]
-  by_cases h : est < 2 ^ 64 ∧ 0 ≤ cnt ∧ cnt < 2 ^ 64 ∧ fpr32 < 2 ^ 32
-  · obtain ⟨h1, h2, h3, h4⟩ := h
-    rw [if_neg (by omega), if_neg (by omega), if_neg (by omega), if_pos ⟨h1, h2, h3, h4⟩]
-    rw [leBytesInt8_nat (by omega) (by omega), leBytesInt8_nat h2 (by omega), leBytesInt4_nat (by omega) (by omega)]
-    simp
-  · rw [if_neg h]
-    repeat' split
-    all_goals first | rfl | (exfalso; apply h; omega)
-
-theorem cmsFooter_spec (w d : Nat) (t : Int) :
-    Gen.cmsFooter.pack [(w : Int), (d : Int), t] =
-      if w < 2 ^ 32 ∧ d < 2 ^ 32 ∧ -9223372036854775808 ≤ t ∧ t ≤ 9223372036854775807
-      then .ok (Spec.cmsFooter w d t) else .error .structError := by
-  rw [cmsFooter_pack]
-  by_cases h : w < 2 ^ 32 ∧ d < 2 ^ 32 ∧ -9223372036854775808 ≤ t ∧ t ≤ 9223372036854775807
-  · obtain ⟨h1, h2, h3, h4⟩ := h
-    rw [if_neg (by omega), if_neg (by omega), if_neg (by omega), if_pos ⟨h1, h2, h3, h4⟩]
-    rw [leBytesInt4_nat (by omega) (by omega), leBytesInt4_nat (by omega) (by omega), leBytesInt8_int h3 h4]
-    simp [Spec.cmsFooter]
-  · rw [if_neg h]
-    repeat' split
-    all_goals first | rfl | (exfalso; apply h; omega)
-
-theorem expFooter_spec (n est fpr32 : Nat) (added : Int) :
-    Gen.expFooter.pack [(n : Int), (est : Int), added, (fpr32 : Int)] =
-      if n < 2 ^ 64 ∧ est < 2 ^ 64 ∧ 0 ≤ added ∧ added < 2 ^ 64 ∧ fpr32 < 2 ^ 32
-      then .ok (Spec.u64le n ++ Spec.u64le est ++ Spec.u64le added.toNat ++ Spec.u32le fpr32)
-      else .error .structError := by
-  rw [expFooter_pack]
-  by_cases h : n < 2 ^ 64 ∧ est < 2 ^ 64 ∧ 0 ≤ added ∧ added < 2 ^ 64 ∧ fpr32 < 2 ^ 32
-  · obtain ⟨h1, h2, h3, h4, h5⟩ := h
-    rw [if_neg (by omega), if_neg (by omega), if_neg (by omega), if_neg (by omega), if_pos ⟨h1, h2, h3, h4, h5⟩]
-    rw [leBytesInt8_nat (by omega) (by omega), leBytesInt8_nat (by omega) (by omega),
-      leBytesInt8_nat h3 (by omega), leBytesInt4_nat (by omega) (by omega)]
-    simp
-  · rw [if_neg h]
-    repeat' split
-    all_goals first | rfl | (exfalso; apply h; omega)
-
-theorem flatMap_congr' {α β} {l : List α} {f g : α → List β} (h : ∀ a ∈ l, f a = g a) :
-    l.flatMap f = l.flatMap g := by
-  simp only [List.flatMap_def, List.map_congr_left h]
-
-/-! ### cell arrays -/
-
-theorem cellsBytes_u32_spec (cells : List Int) (h : ∀ x ∈ cells, 0 ≤ x ∧ x ≤ 4294967295) :
-    cellsBytes .u32 cells = (cells.map Int.toNat).flatMap Spec.u32le := by
-  induction cells with
-  | nil => rfl
-  | cons c cs ih =>
-      have hc := h c (by simp)
-      have ih := ih (fun x hx => h x (List.mem_cons_of_mem _ hx))
-      simp only [cellsBytes, List.flatMap_cons, List.map_cons] at ih ⊢
-      rw [ih]; congr 1
-      exact leBytesInt4_nat hc.1 hc.2
-
-theorem cellsBytes_i32_spec (cells : List Int) (h : ∀ x ∈ cells, -2147483648 ≤ x ∧ x ≤ 2147483647) :
-    cellsBytes .i32 cells = cells.flatMap Spec.i32le := by
-  induction cells with
-  | nil => rfl
-  | cons c cs ih =>
-      have hc := h c (by simp)
-      have ih := ih (fun x hx => h x (List.mem_cons_of_mem _ hx))
-      simp only [cellsBytes, List.flatMap_cons] at ih ⊢
-      rw [ih]; congr 1
-      exact leBytesInt4_int hc.1 hc.2
-
-theorem list_eq_map_getD (l : List Int) (w : Nat) (h : w ≤ l.length) :
-    l.take w = (List.range w).map fun j => l.getD j 0 := by
-  apply List.ext_getElem
-  · simp; omega
-  · intro j h1 h2
-    simp at h1 h2
-    simp [List.getD_eq_getElem?_getD, List.getElem?_eq_getElem (show j < l.length by omega)]
-
-/-- a flat array of `w*d` cells is the row-major concatenation of its rows -/
-theorem flatMap_rows {β} (w d : Nat) (cells : List Int) (g : Int → List β) (h : cells.length = w * d) :
-    cells.flatMap g = (List.range d).flatMap fun i => (List.range w).flatMap fun j => g (cells.getD (i * w + j) 0) := by
-  induction d generalizing cells with
-  | zero =>
-      have : cells = [] := List.eq_nil_of_length_eq_zero (by simpa using h)
-      subst this; rfl
-  | succ d ih =>
-      have hw : w ≤ cells.length := by rw [h, Nat.mul_succ]; omega
-      have hsplit : cells = cells.take w ++ cells.drop w := (List.take_append_drop w cells).symm
-      have hd : (cells.drop w).length = w * d := by rw [List.length_drop, h, Nat.mul_succ]; omega
-      rw [List.range_succ_eq_map, List.flatMap_cons, List.flatMap_map]
-      conv => lhs; rw [hsplit, List.flatMap_append, ih _ hd, list_eq_map_getD cells w hw, List.flatMap_map]
-      simp only [Nat.zero_mul, Nat.zero_add]
-      congr 1
-      apply flatMap_congr'
-      intro i _
-      apply flatMap_congr'
-      intro j _
-      congr 1
-      simp only [List.getD_eq_getElem?_getD, List.getElem?_drop]
-      congr 2
-      rw [Nat.succ_mul]; omega
-
-/-! ### cuckoo buckets -/
-
-theorem flatMap_u32le_zeros (n : Nat) : (List.replicate n 0).flatMap Spec.u32le = List.replicate (n * 4) 0 := by
-  induction n with
-  | zero => rfl
-  | succ n ih =>
-      rw [List.replicate_succ, List.flatMap_cons, ih, Nat.succ_mul, Nat.add_comm (n * 4) 4,
-        ← List.replicate_append_replicate]
-      rfl
-
-theorem flatMap_pair_zeros (n : Nat) :
-    (List.replicate n ((0, 0) : Nat × Nat)).flatMap (fun s => Spec.u32le s.1 ++ Spec.u32le s.2)
-      = List.replicate (n * 8) 0 := by
-  induction n with
-  | zero => rfl
-  | succ n ih =>
-      rw [List.replicate_succ, List.flatMap_cons, ih, Nat.succ_mul, Nat.add_comm (n * 8) 8,
-        ← List.replicate_append_replicate]
-      rfl
-
-theorem bucketBytes_plain_spec (b : Nat) (bkt : List CBin) :
-    bucketBytes false b bkt = (bkt.map (fun s : CBin => s.1) ++ List.replicate (b - bkt.length) 0).flatMap Spec.u32le := by
-  simp only [bucketBytes, cuckooW, Bool.false_eq_true, if_false, List.flatMap_append,
-    flatMap_u32le_zeros, List.flatMap_map]
-  congr 1
-  apply flatMap_congr'
-  intro x _; simp only [cuckooCell, Bool.false_eq_true, if_false, leBytes4_eq]
-
-theorem bucketBytes_counting_spec (b : Nat) (bkt : List CBin) :
-    bucketBytes true b bkt =
-      (bkt ++ List.replicate (b - bkt.length) (0, 0)).flatMap fun s : CBin => Spec.u32le s.1 ++ Spec.u32le s.2 := by
-  simp only [bucketBytes, cuckooW, if_true, List.flatMap_append, flatMap_pair_zeros]
-  congr 1
-  apply flatMap_congr'
-  intro x _; simp only [cuckooCell, if_true, leBytes4_eq]
-
-/-! ### expanding sub-filters -/
-
-theorem expanding_go_spec (blooms : List Bloom) (h : ∀ b ∈ blooms, 0 ≤ b.count ∧ b.count < 2 ^ 64) :
-    Expanding.exportBytes.go blooms =
-      .ok ((blooms.map fun b => (b.count.toNat, b.bits)).flatMap fun s => Spec.u64le s.1 ++ s.2) := by
-  induction blooms with
-  | nil => rfl
-  | cons b bs ih =>
-      have hb := h b (by simp)
-      have ih := ih (fun x hx => h x (List.mem_cons_of_mem _ hx))
-      simp only [Expanding.exportBytes.go, expCount_pack, ih]
-      rw [if_neg (by omega)]
-      simp only [List.map_cons, List.flatMap_cons, List.append_assoc]
-      rw [leBytesInt8_nat hb.1 (by omega)]
-
-theorem expanding_go_error (blooms : List Bloom) (h : ∃ b ∈ blooms, ¬ (0 ≤ b.count ∧ b.count < 2 ^ 64)) :
-    Expanding.exportBytes.go blooms = .error .structError := by
-  induction blooms with
-  | nil => simp at h
-  | cons b bs ih =>
-      simp only [Expanding.exportBytes.go, expCount_pack]
-      by_cases hb : 0 ≤ b.count ∧ b.count < 2 ^ 64
-      · have : ∃ x ∈ bs, ¬ (0 ≤ x.count ∧ x.count < 2 ^ 64) := by
-          obtain ⟨x, hx, hbad⟩ := h
-          rcases List.mem_cons.mp hx with rfl | hx
-          · exact absurd hb hbad
-          · exact ⟨x, hx, hbad⟩
-        rw [ih this, if_neg (by omega)]
-      · rw [if_pos (by omega)]
-
-end PyProb
+import PyProb.Lemmas.LayoutSpecCommon
+import PyProb.Lemmas.LayoutSpecBloom
+import PyProb.Lemmas.LayoutSpecCms
+import PyProb.Lemmas.LayoutSpecCuckoo
